@@ -71,6 +71,56 @@ def work(args):
         return idx, cfgd, seed, kill, [], None, {}, traceback.format_exc()
 
 
+def work_special(args):
+    idx, cfgd, seed, scenario = args
+    try:
+        cfg = ps.Cfg(**cfgd)
+        se = cs.run_special(cfg, seed, scenario)
+        bad = []
+        if se.crash:
+            bad.append(("crash", "session ended abnormally: %s" % se.crash))
+        if se.timed_out:
+            bad.append(("hang", "the session did not finish: some operation blocked beyond every bound"))
+        rt, lim = cfg.resend_timeout, cfg.resend_limit
+        ops = {}
+        for o in se.ops:
+            ops.setdefault(o[0], []).append(o)
+        for name, t0, t1, outcome in se.ops:
+            if t1 is None:
+                bad.append(("hang", "%s started at %.3f never returned (%s)" % (name, t0, scenario)))
+            elif outcome == "BLOCKED":
+                bad.append(("hang", "%s on the ended connection blocked instead of raising end-of-stream (%s)" % (name, scenario)))
+        if scenario.startswith("local-close"):
+            side = scenario[-1]
+            other = "s" if side == "c" else "c"
+            tc = se.closed_at.get(side)
+            if tc is None:
+                bad.append(("reference", "the scripted close() was never reached"))
+            else:
+                for name in ("recv@", "recv_unreliable@"):
+                    for sd, slack in ((side, 1e-6), (other, 0.01 + MARGIN)):
+                        last = (ops.get(name + sd) or [[None, None, None, None]])[-1]
+                        if last[3] != "eof" or last[2] is None or last[2] > tc + slack:
+                            bad.append(("close-releases", "%s%s was %s at %s after the local close() at %.4f on side %s" % (name, sd, last[3], last[2], tc, side)))
+                for sd in "cs":
+                    snd = ops.get("send@" + sd, [])
+                    if snd and snd[-1][3] != "closed":
+                        bad.append(("closed-send", "send on the closed connection at %s returned %r" % (sd, snd[-1][3])))
+        else:
+            conn = ops["connect"][0]
+            want = 0.02 + (lim + 1) * rt
+            if conn[3] != "failed" or abs(conn[2] - want) > 1e-3:
+                bad.append(("connect-bound", "connect with a refused ticket (%s): outcome %s at %s, expected failure at %.3f" % (scenario, conn[3], conn[2], want)))
+        if getattr(se, "server_table", 0) != 0:
+            bad.append(("server-forgets", "the server still holds %d client entries after the connection ended (%s)" % (se.server_table, scenario)))
+        rec = ops.get("reconnect", [])
+        if not rec or rec[0][3] != "ok":
+            bad.append(("reconnect", "after %s the same address could not establish a working connection again: %s" % (scenario, rec[0][3] if rec else None)))
+        return idx, cfgd, seed, ("special", scenario), bad, se, {"n": se.n_datagrams, "ops": len(se.ops), "connect": ops["connect"][0][3]}, None
+    except Exception:
+        return idx, cfgd, seed, ("special", scenario), [], None, {}, traceback.format_exc()
+
+
 def run(ctx):
     quick = ctx.tier == "quick"
     ctx.rule = ("crash-point enumeration: reference session per configuration (encoding x credentials x resend_limit), then for every k "
@@ -78,7 +128,9 @@ def run(ctx):
                 "on both sides, recv_unreliable, send, disconnect, async-with exit, the server handler) is outstanding in some run; oracle: "
                 "each returns/raises within silence + ping_timeout + (resend_limit+1)*resend_timeout, connect to a silent peer fails at "
                 "exactly (resend_limit+1)*resend_timeout, late sends raise closed, server table empties, the address reconnects; each run is "
-                "replayed through the Lean L1 model tick-exactly; distinct non-trivial = distinct (configuration, k, mode)")
+                "replayed through the Lean L1 model tick-exactly; plus a forceful local close() on either side while recv / recv_unreliable are pending in other tasks "
+                "(released at once locally, within one delay at the peer; later recv raises end-of-stream), and a keyed server refusing the login (wrong key, "
+                "expired, garbage ticket) — each followed by a new working connection from the same address; distinct non-trivial = distinct (configuration, k, mode)")
     base = dict(fragment_size=16, resend_timeout=0.5, ping_timeout=1.0)
     cfgs = []
     if quick:
@@ -105,10 +157,21 @@ def run(ctx):
         for k in ks:
             for mode in ("both", "c2s", "s2c"):
                 jobs.append((n, cfgd, 1, (k, mode))); n += 1
+    # other ways a connection ends: a forceful local close() while other tasks are blocked on the connection (either side), and a
+    # keyed server refusing the login — followed by a new connection from the same address
+    sjobs = []
+    for version in (1, 0):
+        for lim in ((2,) if quick else (0, 1, 3)):
+            for sc in ("local-close:c", "local-close:s"):
+                for creds in (False, True):
+                    sjobs.append((n, dict(base, version=version, credentials=creds, resend_limit=lim), 1, sc)); n += 1
+            for sc in ("refused:wrong-key", "refused:expired", "refused:garbage"):
+                sjobs.append((n, dict(base, version=version, credentials=True, resend_limit=lim), 1, sc)); n += 1
     drv = ctx.driver("C02")
     ndiff, first = 0, None
     with multiprocessing.Pool(min(16, os.cpu_count() or 4)) as pool:
-        for idx, cfgd, seed, kill, bad, se, stats, err in pool.imap_unordered(work, jobs, chunksize=4):
+        import itertools
+        for idx, cfgd, seed, kill, bad, se, stats, err in itertools.chain(pool.imap_unordered(work, jobs, chunksize=4), pool.imap_unordered(work_special, sjobs, chunksize=1)):
             if err:
                 ctx.corr_break("c02-session-harness", "session crashed in the harness", {"traceback": err, "cfg": cfgd, "kill": kill})
                 continue
